@@ -114,6 +114,24 @@ pub fn run(ctx: &Ctx, rep: &mut Report) {
                             rep.finding("oracle", "arithmetic-not-ieee", &desc, &format!("got {} expected {}", r, want), "c11.arith");
                         }
                     }
+                    // comparisons follow the IEEE order of the two numbers (-0 = 0, NaN unordered:
+                    // == false, != true, ordering comparisons are refused or false, never true)
+                    let cmp = match op.trim_start_matches('.') {
+                        "<" => Some(x < y),
+                        "<=" => Some(x <= y),
+                        ">" => Some(x > y),
+                        ">=" => Some(x >= y),
+                        "==" => Some(x == y),
+                        "!=" => Some(x != y),
+                        _ => None,
+                    };
+                    if let Some(e) = cmp {
+                        let want = format!("(ok (bool {}))", if e { "t" } else { "f" });
+                        let unordered = x.is_nan() || y.is_nan();
+                        if (r.starts_with("(ok") && r != want) || (!unordered && r != want) {
+                            rep.finding("oracle", "comparison-not-ieee", &desc, &format!("got {} expected {}", r, want), "c11.compare");
+                        }
+                    }
                 }
                 if let (TV::Str(x), TV::Str(y)) = (a, b) {
                     if *op == "+" && r != format!("(ok (str {}))", wire::hs(&format!("{}{}", x, y))) {
@@ -146,14 +164,64 @@ pub fn run(ctx: &Ctx, rep: &mut Report) {
         }
     }
 
+    // ---- broadcasting, systematic part: every operator x every scalar of the pool x a fixed list of
+    // each flavour, in both operand orders
+    {
+        let fixed_lists: Vec<Vec<TV>> = vec![
+            vec![TV::Num(1.0), TV::Num(-2.5), TV::Num(0.0)],
+            vec![TV::Num(-0.0), TV::Num(f64::INFINITY), TV::Num(3.0), TV::Num(f64::NAN)],
+            vec![TV::Str("a".into()), TV::Str("b".into())],
+            vec![TV::Str("".into()), TV::Str("é".into()), TV::Str("xy".into())],
+            vec![TV::Bool(true), TV::Bool(false)],
+            vec![TV::Null, TV::Num(1.0), TV::Str("s".into())],
+            vec![TV::Num(7.0)],
+        ];
+        for (op, wop) in BCAST.iter() {
+            for l in fixed_lists.iter() {
+                for s in scalars.iter() {
+                    for list_first in [true, false] {
+                        let lv = TV::List(l.clone());
+                        let (x, y): (&TV, &TV) = if list_first { (&lv, *s) } else { (*s, &lv) };
+                        let desc = format!("{} {} {}", x.to_source(), op, y.to_source());
+                        rep.case(&desc, true);
+                        let got = real_op(op, x, y);
+                        let per: Vec<String> = l.iter().map(|e| if list_first { elem_ref(op, e, s) } else { elem_ref(op, s, e) }).collect();
+                        let want = list_of(&per);
+                        if got != want {
+                            rep.finding("oracle", if list_first { "broadcast-list-scalar" } else { "broadcast-scalar-list" }, &desc, &format!("got {} expected {}", short(&got), short(&want)), "c11.broadcast");
+                        }
+                        let m = model_op(&mut model, wop, x, y);
+                        if m != got {
+                            rep.finding("model", "binop", &desc, &format!("impl={} model={}", short(&got), short(&m)), "c11.model.binop");
+                        }
+                    }
+                }
+            }
+        }
+    }
+
     // ---- broadcasting ---------------------------------------------------------------------------
     let n_cases = ctx.budget(1500, 20000);
     for _ in 0..n_cases {
         let len = rng.below(9);
-        let homogeneous = rng.chance(2, 3);
+        // element flavours: numbers, strings, booleans / null, or anything from the pool
+        let flavour = rng.below(6);
         let pick = |rng: &mut Rng| -> TV {
-            if homogeneous { TV::Num(*rng.pick(&[1.0, 2.0, -3.5, 0.0, 0.5, f64::INFINITY, 7.0, f64::NAN])) } else { rng.pick(&pool).clone() }
+            match flavour {
+                0 | 1 | 2 => TV::Num(*rng.pick(&[1.0, 2.0, -3.5, 0.0, -0.0, 0.5, f64::INFINITY, 7.0, f64::NAN])),
+                3 => TV::Str(rng.pick(&["", "a", "b", "é", "xy", "a b"]).to_string()),
+                4 => rng.pick(&[TV::Bool(true), TV::Bool(false), TV::Null, TV::Bool(true)]).clone(),
+                _ => rng.pick(&pool).clone(),
+            }
         };
+        // the scalar operand is mostly of the flavour of the elements
+        let same_flavour: Vec<&TV> = scalars.iter().copied().filter(|t| match flavour {
+            0 | 1 | 2 => matches!(t, TV::Num(_)),
+            3 => matches!(t, TV::Str(_)),
+            4 => matches!(t, TV::Bool(_) | TV::Null),
+            _ => true,
+        }).collect();
+        let scalars: Vec<&TV> = if rng.chance(3, 4) { same_flavour } else { scalars.clone() };
         let l: Vec<TV> = (0..len).map(|_| pick(&mut rng)).collect();
         let (op, wop) = *rng.pick(BCAST);
         match rng.below(4) {
